@@ -13,23 +13,23 @@ MIRROR = {
     'C04': ['CliffordMap.compose', 'CliffordMap.inverse', 'PauliList.transform_by'],
     'C07': ['stabilizer_expect', 'vectorizable_stabilizer_expect', 'StabilizerState.expect(PauliList)',
             'StabilizerState.expect(StabilizerState)', 'StabilizerState.expect(PauliPolynomial)', 'StabilizerState.expect(Pauli)',
-            'vectorizable_expct(PauliList)', 'vectorizable_expct(Pauli)', 'vectorizable_expct(PauliPolynomial)'],
+            'vectorizable_expct(PauliList)', 'vectorizable_expct(Pauli)', 'vectorizable_expct(PauliPolynomial)', 'StabilizerState.get_prob'],
     'C08': ['z2rank', 'StabilizerState.entropy', 'clifford_rotation_gate(qubits=)', 'CliffordGate.forward'],
     'C09': ['CliffordCircuit.forward', 'CliffordCircuit.forward(compiled)', 'CliffordGate.forward', 'clifford_rotation_gate', 'clifford_rotation_gate(qubits=)',
             'CliffordCircuit.copy.forward', 'CliffordLayer.copy(compiled).forward'],
     'C10': ['CliffordCircuit.forward', 'CliffordCircuit.backward', 'CliffordCircuit.backward(compiled)', 'CliffordGate.backward',
-            'CliffordCircuit.copy.backward', 'CliffordLayer.copy(compiled).backward', 'CliffordMap.inverse'],
+            'CliffordCircuit.copy.backward', 'CliffordLayer.copy(compiled).backward', 'CliffordMap.inverse', 'CliffordCircuit.povm'],
     'C12': ['map_to_state', 'state_to_map', 'CliffordMap.to_state', 'StabilizerState.to_map', 'stabilizer_state',
             'stabilizer_state(anticommuting list)', 'zero_state', 'one_state', 'maximally_mixed_state', 'ghz_state', 'stabilizer_project', 'StabilizerState.to_qutip', 'StabilizerState.density_matrix'],
     'C15': ['PauliPolynomial.__matmul__', 'PauliPolynomial.__matmul__(no terms)', 'PauliPolynomial.__add__', 'PauliPolynomial.__sub__',
             'PauliPolynomial.__rmul__', 'PauliPolynomial.reduce', 'PauliPolynomial.reduce(tol)', 'Pauli.__matmul__', 'PauliPolynomial arithmetic (mixed operands)', 'PauliPolynomial.trace',
-            'PauliPolynomial.reduce leaves its receiver unchanged'],
+            'PauliPolynomial.reduce leaves its receiver unchanged', 'pauli_identity / pauli_zero'],
     'C17': ['StabilizerState.copy', 'CliffordCircuit.copy.forward', 'CliffordCircuit.copy.backward', 'CliffordLayer.copy(compiled).forward',
             'CliffordLayer.copy(compiled).backward', 'PauliPolynomial.reduce leaves its receiver unchanged', 'diagonalize(StabilizerState)',
             'Pauli.copy (taken from a list that is rewritten afterwards)', 'CliffordCircuit.copy (extended afterwards)'],
     'C18': ['front', 'condense', 'pauli_is_onsite', 'pauli_diagonalize1', 'pauli_diagonalize2', 'diagonalize(Pauli)', 'diagonalize(StabilizerState)'],
     'C20': ['pauli()', 'repr', 'pauli_tokenize', 'PauliList.__getitem__', 'PauliList.__rmul__', 'PauliList.__truediv__', 'PauliList.__neg__',
-            'repr(PauliList)', 'PauliList.tokenize', 'pauli(repr(P))', 'paulis(repr lines)'],
+            'repr(PauliList)', 'PauliList.tokenize', 'pauli(repr(P))', 'paulis(repr lines)', 'weight', 'Pauli.as_list'],
 }
 
 
